@@ -1,11 +1,14 @@
-import FsDb.Proofs.Refine
+import FsDb.Proofs.CfsInv
 /-!
 # C14 — Space of unreachable contents is reclaimed; the disk holds only live data
 
-Proved so far (the *safety* half and the bookkeeping the reclaim half rests on); the exact
-equality "content files = committed values" at quiescence is established by the correspondence run
-(`tree` op: walk of the real storage roots vs model vs specification) and is `C14_quiescent_partial`'s
-missing part.
+The safety half (nothing reachable loses its content) and the reclaim half: the content-record
+invariant `CfsInv` (every content record belongs to a linked version or to a pending deletion job;
+no content id twice; every content record has its version record) holds through every operation,
+and at quiescence -- no transaction open, worker pool drained, one collector pass -- the content
+records (one content file each) are EXACTLY the committed values of the keys that have one
+(`C14_quiescent_storage`), also after `Close`+`Open` and a drained pool (`C14_after_reopen`).
+The correspondence run checks the same equality on the real storage roots (`tree`).
 -/
 namespace FsDb.C14
 open FsDb Spec
@@ -57,5 +60,99 @@ theorem C14_gc_keeps_only_latest (c : Sys) (hreg : c.reg = []) (i : Inv c) (k : 
       simp only
       rw [ih (fun v hv => hle v (List.mem_cons_of_mem _ hv))]
       simp [Sys.latest, List.getLast?_cons_cons]
+
+/-! ### the reclaim half -/
+
+theorem drain_fields (c : Sys) : (c.drain).1.reg = c.reg ∧ (c.drain).1.main = c.main ∧ (c.drain).1.pending = [] := by
+  unfold Sys.drain
+  refine ⟨?_, ?_, rfl⟩
+  · show (c.pending.foldl (fun s job => s.deleteFiles job) c).reg = c.reg
+    generalize c.pending = jobs
+    induction jobs generalizing c with
+    | nil => rfl
+    | cons j js ih => simp only [List.foldl_cons]; rw [ih]; exact (deleteFiles_fields c j).2.2.2.2.1
+  · show (c.pending.foldl (fun s job => s.deleteFiles job) c).main = c.main
+    generalize c.pending = jobs
+    induction jobs generalizing c with
+    | nil => rfl
+    | cons j js ih => simp only [List.foldl_cons]; rw [ih]; exact (deleteFiles_fields c j).2.1
+
+theorem gc_fields (c : Sys) : (c.gc).1.reg = c.reg ∧ (c.gc).1.pending = c.pending ∧
+    (c.gc).1.main = fun k => (collect (c.main k) (gcHz c)).2 := by
+  rw [gc_eq]
+  obtain ⟨_, f2, _, _, f5, _, _, f8⟩ := deleteFiles_fields (gcMid c) (gcDels c)
+  exact ⟨f5, f8, f2⟩
+
+theorem toList_latest (o : Option Ver) : o.toList = (Sys.latest o.toList).toList := by
+  cases o <;> rfl
+
+/-- the invariants hold in every state reached by any history (reopenings and storage walks
+    included) -/
+theorem C14_invariants_reachable (ops : List Op) (hops : ∀ op ∈ ops, op.total = true ∨ op = .tree) :
+    R (({} : Sys).run ops).1 (Spec.run {} ops).1 ∧ RecInv (({} : Sys).run ops).1 ∧ CfsInv (({} : Sys).run ops).1 :=
+  reach_all R.init RecInv.init CfsInv.init ops hops
+
+/-- every content record is accounted for: it belongs to a version some reader may still reach, or
+    to a deletion job already handed to the worker pool -- in every reachable state -/
+theorem C14_no_orphan_content {c : Sys} (ci : CfsInv c) (p : Nat × Nat) (hp : p ∈ c.cfs) :
+    (∃ k, ∃ v ∈ c.all k, v.cid = p.1) ∨ (∃ job ∈ c.pending, ∃ v ∈ job, v.cid = p.1) := ci.owned p hp
+
+/-- **Quiescence.**  From any reachable state with no transaction open: drain the worker pool, run
+    the collector once; then the storage holds exactly the committed value of every key that has
+    one -- nothing superseded, rolled back, conflicted or deleted is left. -/
+theorem C14_quiescent_storage {c : Sys} {s : State} (h : R c s) (ci : CfsInv c) (hreg : c.reg = []) :
+    ((c.drain).1.gc).1.tree = (Spec.step s .tree).2 := by
+  have h1 := (step_drain h).2
+  have c1 := ci.drain
+  obtain ⟨d1, d2, d3⟩ := drain_fields c
+  have h2 := (step_gc h1).2
+  have c2 := CfsInv.gc h1.inv c1
+  obtain ⟨g1, g2, g3⟩ := gc_fields (c.drain).1
+  have hreg1 : (c.drain).1.reg = [] := d1.trans hreg
+  have := quiescent_tree h2 c2 (g1.trans hreg1) (g2.trans d3) (by
+    intro k
+    rw [g3]
+    show (collect ((c.drain).1.main k) (gcHz (c.drain).1)).2 = (Sys.latest (collect ((c.drain).1.main k) (gcHz (c.drain).1)).2).toList
+    rw [C14_gc_keeps_only_latest (c.drain).1 hreg1 h1.inv k]
+    exact toList_latest _)
+  rw [this]
+  -- the specification's storage walk ignores drain and gc
+  have e1 : (Spec.step s .gc).1.hist = s.hist := by
+    show (if s.open_.isEmpty then { s with clock := s.clock + 1 } else s).hist = s.hist
+    split <;> rfl
+  have e2 : (Spec.step s .gc).1.dom = s.dom := by
+    show (if s.open_.isEmpty then { s with clock := s.clock + 1 } else s).dom = s.dom
+    split <;> rfl
+  show Out.files (((Spec.step s .gc).1.dom.filterMap (fun k => (committed (Spec.step s .gc).1 k).bind (·.val))).mergeSort (· ≤ ·)) = _
+  unfold committed
+  rw [e1, e2]
+  rfl
+
+/-- after `Close`+`Open` and a drained pool the storage holds exactly the committed values
+    (recovery reclaims everything that was left behind) -/
+theorem C14_after_reopen {c : Sys} {s : State} (h : R c s) (ri : RecInv c) (ci : CfsInv c) (f : Bool) :
+    ((c.reopen f).1.drain).1.tree = (Spec.step s .tree).2 := by
+  have h1 := R.reopen h ri f
+  have c1 := CfsInv.reopen h.inv ci f
+  have h2 := (step_drain h1).2
+  have c2 := c1.drain
+  obtain ⟨d1, d2, d3⟩ := drain_fields (c.reopen f).1
+  have := quiescent_tree h2 c2 (d1.trans (reopen_reg c f)) d3 (by
+    intro k
+    rw [d2, reopen_main h.inv ri f k]
+    exact toList_latest _)
+  rw [this]
+  rfl
+
+/-- non-vacuity: superseded versions, a rolled-back and a conflicting transaction, a tombstone;
+    after drain + gc only the committed values remain, in the model's storage and in the
+    specification (unsorted lists; the walk sorts them) -/
+example :
+    ((({} : Sys).run [.set 0 "a" 1, .set 0 "a" 2, .begin 1 .ser, .set 1 "b" 3, .set 0 "b" 4, .commit 1, .begin 2 .rc, .set 2 "c" 5,
+      .rollback 2, .set 0 "d" 6, .del 0 "d", .drain, .gc]).1.cfs.map (·.2)) = [2, 4] := by decide
+example :
+    let s := (Spec.run {} [.set 0 "a" 1, .set 0 "a" 2, .begin 1 .ser, .set 1 "b" 3, .set 0 "b" 4, .commit 1, .begin 2 .rc, .set 2 "c" 5,
+      .rollback 2, .set 0 "d" 6, .del 0 "d", .drain, .gc]).1
+    s.dom.filterMap (fun k => (committed s k).bind (·.val)) = [2, 4] := by decide
 
 end FsDb.C14
